@@ -10,6 +10,9 @@
 (*   ["lv", i], ["tv", j]  as "lp", "lt" but through the variable-round    *)
 (*              path that entropy collection itself uses (the two loop     *)
 (*              count readings are fixed)                                   *)
+(*   ["lh", i], ["th", j]  as "lp", "lt" while the high half of a value is  *)
+(*              still owed to the caller (between the two next_u32 of a     *)
+(*              pair)                                                       *)
 (*   ["nx", i]  pool := e_i; one whole collection (next_u64: priming       *)
 (*              measurement, `rounds` accepted measurements with stuck ones *)
 (*              in between, stir) over the same readings every time: "two  *)
@@ -40,7 +43,7 @@ Init == l = 1 /\ imgs = <<>>
 Spec == Init /\ [][Next]_vars
 Done == l = Len(Rec) + 1
 
-Kinds == {"lp", "lt", "st", "lv", "tv", "nx"}
+Kinds == {"lp", "lt", "st", "lv", "tv", "nx", "lh", "th"}
 Complete(kind) == \A i \in -1..63 : <<kind, i>> \in DOMAIN imgs
 Col(kind, i) == VXor(imgs[<<kind, i>>], imgs[<<kind, -1>>])          \* linear part: f(e_i) xor f(0)
 AffTags(kind) == {t \in DOMAIN imgs : Len(t) = 4 /\ t[1] = "aff" /\ t[2] = kind /\ t[4] = "a"}
@@ -70,7 +73,7 @@ Result(kind) == IF ~Complete(kind) THEN <<kind, "incomplete", 0, VZero(4), 0>>
                 ELSE LET e == Elim(kind) IN <<kind, "affine", e[1], e[2], Cardinality(AffTags(kind))>>
 Bijective ==
   Done => LET r == [k \in Kinds |-> Result(k)] IN
-          /\ PrintT(<<"RESULT", r["lp"], r["lt"], r["st"], r["lv"], r["tv"], r["nx"], SpecRotRank>>)
+          /\ PrintT(<<"RESULT", r["lp"], r["lt"], r["st"], r["lv"], r["tv"], r["nx"], r["lh"], r["th"], SpecRotRank>>)
           /\ \A k \in Kinds : r[k][2] = "affine" => r[k][3] = 64
           /\ SpecRotRank = 64
 =============================================================================
